@@ -12,7 +12,7 @@ use in_toto::crypto::{KeyId, PrivateKey, PublicKey, SignatureScheme};
 use in_toto::models::{LayoutMetadata, MetadataWrapper};
 use serde_json::{json, Value};
 
-use crate::keys::{self, Key};
+use crate::keys;
 use crate::olpc;
 use crate::report::{Acc, Check, Tier};
 use crate::util::{self, guard, Guard};
@@ -86,6 +86,8 @@ fn check_paths(acc: &mut Acc, m: &Material) {
     let default = Some(&DEFAULT_ALGS[..]);
     // (path name, result, hash-alg list the path uses)
     let mut paths: Vec<(String, Result<PublicKey, String>, Option<Vec<&str>>)> = vec![];
+    // the same material under the other RSA-PSS digest: (path, result, scheme name)
+    let mut other_scheme: Vec<(String, Result<PublicKey, String>, &'static str)> = vec![];
     let g = |f: &dyn Fn() -> in_toto::Result<PublicKey>| -> Result<PublicKey, String> {
         match guard(f) {
             Guard::Done(Ok(p)) => Ok(p),
@@ -115,7 +117,39 @@ fn check_paths(acc: &mut Acc, m: &Material) {
                 paths.push((format!("from_ecdsa_with_keyid_hash_algorithms[{vn}]"), g(&|| PublicKey::from_ecdsa_with_keyid_hash_algorithms(m.raw.clone(), a.clone().map(|v| v.iter().map(|s| s.to_string()).collect()))), algs));
             }
         }
-        _ => {}
+        _ => {
+            let (on, oe) = if m.scheme == "rsassa-pss-sha256" { ("rsassa-pss-sha512", SignatureScheme::RsaSsaPssSha512) } else { ("rsassa-pss-sha256", SignatureScheme::RsaSsaPssSha256) };
+            other_scheme.push(("from_pkcs8[other PSS digest]".into(), g(&|| PrivateKey::from_pkcs8(m.pk8, oe.clone()).map(|k| k.public().clone())), on));
+            other_scheme.push(("from_spki[other PSS digest]".into(), g(&|| PublicKey::from_spki(&m.spki_std, oe.clone())), on));
+            let j = json!({"keytype": "rsa", "scheme": on, "keyid_hash_algorithms": DEFAULT_ALGS, "keyval": {"public": m.public_text}}).to_string();
+            other_scheme.push(("json[other PSS digest]".into(), match guard(|| serde_json::from_str::<PublicKey>(&j)) {
+                Guard::Done(Ok(p)) => Ok(p),
+                Guard::Done(Err(e)) => Err(e.to_string()),
+                Guard::Panicked(l, msg) => Err(format!("PANIC {l}: {msg}")),
+            }, on));
+        }
+    }
+    // one material, two declared schemes, in one process: each key id is the hash of its own description
+    for (pname, res, scheme_name) in other_scheme {
+        acc.evaluations += 1;
+        acc.nontrivial += 1;
+        let witness = || json!({"kind": "path", "key": m.name, "path": pname});
+        match res {
+            Err(e) => acc.violation(&format!("construction-fails:{}:other-scheme", m.keytype), &format!("{pname} fails for {}: {e}", m.name), witness),
+            Ok(pk) => {
+                let expect = olpc::keyid(m.keytype, scheme_name, default.as_deref(), &m.public_text);
+                let got = id_of(&pk);
+                if got != expect {
+                    acc.violation(&format!("keyid-differs:{}:other-scheme", m.keytype), &format!("{pname}: key id {got} is not the hash of the key's canonical description under {scheme_name} ({expect})"), witness);
+                } else {
+                    acc.outcome("keyid-intrinsic");
+                }
+                let rt = serde_json::to_string(&pk).ok().and_then(|t| serde_json::from_str::<PublicKey>(&t).ok());
+                if !matches!(rt, Some(ref back) if back == &pk && id_of(back) == got) {
+                    acc.violation(&format!("json-roundtrip-changes-key:{}", m.keytype), &format!("{pname}: key does not survive a JSON round trip"), witness);
+                }
+            }
+        }
     }
     // JSON forms
     for (vn, algs) in alg_variants() {
@@ -151,6 +185,9 @@ fn check_paths(acc: &mut Acc, m: &Material) {
                 let std_import = pname.contains("standard");
                 if e.starts_with("PANIC") {
                     acc.violation(&format!("construction-panics:{}:{class}", m.keytype), &format!("{pname} panics for {}: {e}", m.name), witness);
+                } else if pname.contains("NULL-parameter") {
+                    // not a standards-conformant encoding (RFC 8410 forbids the parameter): importing it is a courtesy
+                    acc.note("observation:legacy-NULL-parameter-ed25519-spki-not-imported");
                 } else if std_import {
                     acc.outcome("standard-spki-rejected");
                     acc.violation(&format!("standard-spki-rejected:{}", m.keytype), &format!("the standards-conformant SubjectPublicKeyInfo of an {} key cannot be imported ({pname}): {e}", m.keytype), witness);
@@ -215,14 +252,14 @@ fn alg_variants() -> Vec<(&'static str, Option<Vec<&'static str>>)> {
 
 // ------------------------------------------------------------- key tables
 
-fn table_layout_json(entries: &[(String, &Key)], step_pubkeys: &[String]) -> Value {
+fn table_layout_json(entries: &[(String, TKey)], step_pubkeys: &[String]) -> Value {
     // duplicate labels: later entries override (one JSON member per label, last wins)
     let mut keys_obj = String::from("{");
     for (i, (label, k)) in entries.iter().enumerate() {
         if i > 0 {
             keys_obj.push(',');
         }
-        keys_obj.push_str(&format!("{}:{}", json!(label), serde_json::to_string(k.public()).unwrap()));
+        keys_obj.push_str(&format!("{}:{}", json!(label), serde_json::to_string(&k.1).unwrap()));
     }
     keys_obj.push('}');
     let txt = format!(
@@ -232,11 +269,33 @@ fn table_layout_json(entries: &[(String, &Key)], step_pubkeys: &[String]) -> Val
     Value::String(txt)
 }
 
+/// A table key: (name, public key). `A2` is A's material rebuilt without a hash-algorithm list
+/// (another intrinsic id, same signatures verify under it).
+type TKey = (&'static str, PublicKey);
+
 fn check_tables(acc: &mut Acc, max_len: usize) {
     let (a, b) = (keys::get("ed1"), keys::get("ed2"));
     let owner = keys::get("ed6");
-    let labels = [a.id(), b.id(), "0".repeat(64)];
-    let entry_alpha: Vec<(String, &Key)> = labels.iter().flat_map(|l| [(l.clone(), a), (l.clone(), b)]).collect();
+    let a2 = PublicKey::from_ed25519(a.public().as_bytes().to_vec()).expect("guise of A");
+    let b2 = PublicKey::from_ed25519(b.public().as_bytes().to_vec()).expect("guise of B");
+    let ida = a.id();
+    let mut last_changed = ida.clone();
+    let lc = if ida.ends_with('0') { '1' } else { '0' };
+    last_changed.pop();
+    last_changed.push(lc);
+    // labels: the two ids, zeros, and near misses of id(A): upper case, same 8-character prefix, last digit changed
+    let labels = [ida.clone(), b.id(), "0".repeat(64), ida.to_uppercase(), format!("{}{}", &ida[..8], "0".repeat(56)), last_changed];
+    let label_names = ["id(A)", "id(B)", "zeros", "ID(A) upper case", "prefix8(A)+zeros", "id(A) last digit changed"];
+    let tkeys: Vec<TKey> = vec![("A", a.public().clone()), ("B", b.public().clone()), ("A2 (A without hash-algorithm list)", a2), ("B2 (B without hash-algorithm list)", b2)];
+    // near-miss labels and guises with every key, the plain labels with A and B as before
+    let mut entry_alpha: Vec<(String, TKey)> = vec![];
+    for (li, l) in labels.iter().enumerate() {
+        for (ki, k) in tkeys.iter().enumerate() {
+            if li < 3 || ki != 3 {
+                entry_alpha.push((l.clone(), k.clone()));
+            }
+        }
+    }
     let mut tables: Vec<Vec<usize>> = vec![vec![]];
     for len in 1..=max_len {
         tables.extend(util::sequences(entry_alpha.len(), len));
@@ -245,14 +304,14 @@ fn check_tables(acc: &mut Acc, max_len: usize) {
     for t in &tables {
         acc.states += 1;
         acc.transitions += if t.is_empty() { 0 } else { 1 };
-        let entries: Vec<(String, &Key)> = t.iter().map(|i| entry_alpha[*i].clone()).collect();
-        let misfiled = entries.iter().any(|(l, k)| *l != k.id());
+        let entries: Vec<(String, TKey)> = t.iter().map(|i| entry_alpha[*i].clone()).collect();
+        let misfiled = entries.iter().any(|(l, k)| *l != id_of(&k.1));
         if misfiled {
             acc.nontrivial += 1;
         }
         let Value::String(txt) = table_layout_json(&entries, &[a.id()]) else { unreachable!() };
         acc.evaluations += 1;
-        let witness = || json!({"kind": "table", "entries": entries.iter().map(|(l, k)| json!({"label": if *l == a.id() { "id(A)" } else if *l == b.id() { "id(B)" } else { "zeros" }, "key": if k.name == "ed1" { "A" } else { "B" }})).collect::<Vec<_>>()});
+        let witness = || json!({"kind": "table", "entries": entries.iter().map(|(l, k)| json!({"label": labels.iter().position(|x| x == l).map(|i| label_names[i]).unwrap_or("?"), "key": k.0})).collect::<Vec<_>>()});
         let parsed: LayoutMetadata = match guard(|| serde_json::from_str::<LayoutMetadata>(&txt)) {
             Guard::Done(Ok(l)) => l,
             Guard::Done(Err(_)) => {
@@ -297,6 +356,15 @@ fn check_tables(acc: &mut Acc, max_len: usize) {
             if !relabel {
                 world::write(&dir, &world::link_file("s", a), &v.to_string());
             }
+            // and once more relabelled with every near-miss label that shares A's prefix (same file name)
+            if relabel {
+                let mut v2 = v.clone();
+                for near in [&labels[3], &labels[4], &labels[5]] {
+                    let e = json!({"keyid": near, "sig": v["signatures"][0]["sig"]});
+                    v2["signatures"].as_array_mut().unwrap().push(e);
+                }
+                world::write(&dir, &world::link_file("s", a), &v2.to_string());
+            }
             acc.evaluations += 1;
             let verdict = world::verify(&lay, world::owner_map(&[owner]), &dir);
             if verdict.is_ok() {
@@ -331,7 +399,7 @@ pub fn run(tier: Tier) -> i32 {
     acc.sample(|| json!({"kind": "path", "key": "ed1", "paths": ["from_pkcs8", "from_spki(standard DER)", "from_pem_spki(standard PEM)", "from_ed25519(raw)", "json[...]"]}));
     check_tables(&mut acc, if tier.thorough() { 3 } else { 2 });
     c.acc = acc;
-    c.rule = "keys: 6 Ed25519, 3 ECDSA P-256, RSA 2048 x2 / 4096 x1 / 2048 with public exponents 0x800001 and 0x80000001; construction paths: PKCS#8 private key, standard DER and PEM SubjectPublicKeyInfo, raw bytes, 64-byte keypair, JSON with/without a (lying) keyid member and a private member, each with hash-algorithm list absent/default/one/reordered where the path takes one; for each: key id == reference preimage hash, equality across paths, JSON round trip, SPKI re-export identity and re-import. Key tables: every sequence of <= N appended (label, key) entries over labels {id(A), id(B), zeros} x keys {A, B}, parsed, then used end to end with links signed by B".into();
+    c.rule = "keys: 6 Ed25519, 3 ECDSA P-256, RSA 2048 x2 / 4096 x1 / 2048 with public exponents 0x800001 and 0x80000001; construction paths: PKCS#8 private key, standard DER and PEM SubjectPublicKeyInfo, raw bytes, 64-byte keypair, JSON with/without a (lying) keyid member and a private member, each with hash-algorithm list absent/default/one/reordered where the path takes one; every RSA material also under the other PSS digest (PKCS#8, SPKI, JSON) in the same process; for each: key id == reference preimage hash, equality across paths, JSON round trip, SPKI re-export identity and re-import. Key tables: every sequence of <= N appended (label, key) entries over labels {id(A), id(B), zeros, id(A) in upper case, A's 8-character prefix + zeros, id(A) with the last digit changed} x keys {A, B, A and B rebuilt without a hash-algorithm list}, parsed, then used end to end with links signed by B".into();
     c.bound_completed = format!("all keys x all paths; tables of <= {} entries", if tier.thorough() { 3 } else { 2 });
     c.assume("reference key-id preimage = securesystemslib (self-tested against Python-made key ids in C11)");
     c.assume("standard SPKI encodings built by template and byte-compared with OpenSSL-generated fixtures");
